@@ -228,7 +228,8 @@ fn run_udp(sc: &UdpSc) -> UdpRun {
         },
         Imp::Tokio => {
             let rt = tokio::runtime::Builder::new_current_thread().enable_all().build().unwrap();
-            let r: Result<(), String> = rt.block_on(async {
+            crate::model::enter_guard();
+            let r: Result<Result<(), String>, Box<dyn std::any::Any + Send>> = std::panic::catch_unwind(std::panic::AssertUnwindSafe(|| rt.block_on(async {
                 conn.set_nonblocking(true).map_err(|e| e.to_string())?;
                 let sock = tokio::net::UdpSocket::from_std(conn).map_err(|e| e.to_string())?;
                 let mut framed = insim::net::tokio_impl::Framed::new(
@@ -295,9 +296,15 @@ fn run_udp(sc: &UdpSc) -> UdpRun {
                     }
                 }
                 Ok(())
-            });
-            if let Err(e) = r {
-                return UdpRun { events, harness_error: Some(e) };
+            })));
+            crate::model::leave_guard();
+            match r {
+                Err(_) => {
+                    // the library panicked inside an async call: report it as a failed read
+                    events.push(UEv::Read { res: AppRes::Other(format!("panic: {}", crate::model::take_panic_msg())) });
+                },
+                Ok(Err(e)) => return UdpRun { events, harness_error: Some(e) },
+                Ok(Ok(())) => {},
             }
         },
     }
